@@ -256,62 +256,3 @@ bool Env::parallel(const ParallelOpts& o) {
 
 }  // namespace verif
 
-using namespace verif;
-
-static void usage() {
-  std::cerr << "usage: vcheck list | vcheck run <check> [--tier quick|thorough] [--workers N] [--seed S] [--out FILE]\n"
-               "              [--deadline SECONDS] [--only STAGE:INDEX] [--replay ARG] [--timeout-scale X]\n";
-  exit(2);
-}
-
-int main(int argc, char** argv) {
-  // deterministic addresses: re-exec once with ASLR disabled (best effort)
-  if (!getenv("VCHECK_NOASLR")) {
-    setenv("VCHECK_NOASLR", "1", 1);
-    int pers = personality(0xffffffff);
-    if (pers != -1 && !(pers & ADDR_NO_RANDOMIZE) && personality(pers | ADDR_NO_RANDOMIZE) != -1) execv("/proc/self/exe", argv);
-  }
-  if (argc < 2) usage();
-  std::string cmd = argv[1];
-  if (cmd == "list") { for (auto& c : registry()) std::cout << c.name << "\t" << c.property << "\t" << c.descr << "\n"; return 0; }
-  if (cmd != "run" || argc < 3) usage();
-  Env env; env.checkName = argv[2]; env.tier = "quick"; std::string out;
-  for (int i = 3; i < argc; i++) {
-    std::string a = argv[i]; auto next = [&]() -> std::string { if (i + 1 >= argc) usage(); return argv[++i]; };
-    if (a == "--tier") env.tier = next(); else if (a == "--workers") env.workers = std::max(1, atoi(next().c_str()));
-    else if (a == "--seed") env.seed = strtoull(next().c_str(), nullptr, 10); else if (a == "--out") out = next();
-    else if (a == "--deadline") env.deadline = nowMono() + atof(next().c_str());
-    else if (a == "--timeout-scale") env.timeoutScale = atof(next().c_str());
-    else if (a == "--only") { std::string s = next(); size_t c = s.rfind(':'); if (c == std::string::npos) usage(); env.only = true; env.onlyStage = s.substr(0, c); env.onlyIndex = strtoull(s.c_str() + c + 1, nullptr, 10); }
-    else if (a == "--replay") env.replayArg = next();
-    else usage();
-  }
-  const Check* chk = nullptr; for (auto& c : registry()) if (c.name == env.checkName) chk = &c;
-  if (!chk) { std::cerr << "unknown check " << env.checkName << "\n"; return 2; }
-  env.property = chk->property;
-  double t0 = nowMono();
-  chk->body(env);
-  double wall = nowMono() - t0;
-  std::ostringstream js;
-  js << "{\"check\":\"" << jsonEscape(env.checkName) << "\",\"property\":\"" << env.property << "\",\"tier\":\"" << env.tier << "\",\"variant\":\"" << VERIF_VARIANT
-     << "\",\"descr\":\"" << jsonEscape(chk->descr) << "\",\"seed\":" << env.seed << ",\"complete\":" << (env.complete ? "true" : "false") << ",\"wall_s\":" << wall << ",\n\"stages\":[";
-  for (size_t i = 0; i < env.stagesJson.size(); i++) js << (i ? "," : "") << env.stagesJson[i];
-  js << "],\n\"counters\":{"; bool first = true;
-  for (auto& kv : env.counters) { js << (first ? "" : ",") << "\"" << jsonEscape(kv.first) << "\":" << kv.second; first = false; }
-  js << "},\n\"info\":{"; first = true;
-  for (auto& kv : env.info) { js << (first ? "" : ",") << "\"" << jsonEscape(kv.first) << "\":" << kv.second; first = false; }
-  js << "},\n\"samples\":["; for (size_t i = 0; i < env.samples.size(); i++) js << (i ? "," : "") << "\"" << jsonEscape(env.samples[i]) << "\"";
-  js << "],\n\"violations\":["; first = true;
-  for (auto& kv : env.violExamples) {
-    const Viol& v0 = kv.second[0];
-    js << (first ? "" : ",") << "\n {\"subcheck\":\"" << jsonEscape(v0.subcheck) << "\",\"class\":\"" << jsonEscape(v0.cls) << "\",\"features\":\"" << jsonEscape(v0.feats)
-       << "\",\"count\":" << env.violCount[kv.first] << ",\"examples\":[";
-    for (size_t i = 0; i < kv.second.size(); i++) { const Viol& v = kv.second[i];
-      js << (i ? "," : "") << "{\"stage\":\"" << jsonEscape(v.stage) << "\",\"index\":" << v.index << ",\"weight\":" << v.weight << ",\"detail\":\"" << jsonEscape(v.detail) << "\"}"; }
-    js << "]}"; first = false;
-  }
-  js << "]}\n";
-  if (out.empty()) std::cout << js.str(); else { std::ofstream f(out); f << js.str(); }
-  if (env.only) { for (auto& kv : env.violExamples) for (auto& v : kv.second) std::cerr << "VIOL " << kv.first << " :: " << v.detail << "\n"; }
-  return env.violExamples.empty() ? 0 : 1;
-}
